@@ -369,6 +369,11 @@ type DecodedTx struct {
 func DecodeTx(raw []byte, chainContext string) *DecodedTx {
 	d := &DecodedTx{}
 	var st transaction.SignedTransaction
+	// (The repository's cbor.Unmarshal returns nil for empty input without decoding anything: a
+	// zero-length transaction is not a decodable envelope.)
+	if len(raw) == 0 {
+		return d
+	}
 	if err := cbor.Unmarshal(raw, &st); err != nil {
 		return d
 	}
